@@ -238,6 +238,8 @@ func sumCase(a string, vals []float64, conf float64, tag string) {
 		canon(sum.Confidence), wt, hx.HexS(pct))
 	if a == "nothing" {
 		hx.Printf("sobs %d centre=ok ends=ok bracket=ok conf=ok warn=ok pct=ok needn=ok have=ok\n", id)
+	} else if a == "normal" {
+		hx.Printf("sobs %d centre=ok ends=ok bracket=ok conf=ok warn=ok pct=ok tcov=ok\n", id)
 	} else {
 		hx.Printf("sobs %d centre=ok ends=ok bracket=ok conf=ok warn=ok pct=ok\n", id)
 	}
